@@ -4,6 +4,7 @@
 package c14
 
 import (
+	"context"
 	"errors"
 	"fmt"
 	"os"
@@ -11,8 +12,10 @@ import (
 	"sync"
 	"time"
 
+	"github.com/influxdata/flux"
 	"github.com/influxdata/kapacitor"
 	"github.com/influxdata/kapacitor/edge"
+	"github.com/influxdata/kapacitor/influxdb"
 	"github.com/influxdata/kapacitor/services/httpd"
 	"github.com/influxdata/kapacitor/services/storage"
 	"github.com/influxdata/kapacitor/services/task_store"
@@ -53,18 +56,27 @@ func (deadman) Global() bool            { return false }
 // oracle "the start of task <id> fails during this request" (the error surfaces from TaskMaster.StartTask).
 
 type gateSvc struct {
-	mu   sync.Mutex
-	fail map[string]bool
+	mu       sync.Mutex
+	fail     map[string]bool
+	restored map[string]string // task id -> payload of the snapshot its gate was restored with at its last start
+	cur      map[string]*gateUDF // task id -> the gate of its last start
 }
 
 var gateInfo = udf.Info{Wants: agent.EdgeType_STREAM, Provides: agent.EdgeType_STREAM, Options: map[string]*agent.OptionInfo{}}
 
-func (g *gateSvc) List() []string { return []string{"gate"} }
+// `@bgate()`: the same gate for batch tasks (batch in, batch out), so that TaskMaster.StartTask of a batch task can
+// be refused by the oracle as well.
+var bgateInfo = udf.Info{Wants: agent.EdgeType_BATCH, Provides: agent.EdgeType_BATCH, Options: map[string]*agent.OptionInfo{}}
+
+func (g *gateSvc) List() []string { return []string{"bgate", "gate"} }
 func (g *gateSvc) Info(name string) (udf.Info, bool) {
-	if name != "gate" {
-		return udf.Info{}, false
+	switch name {
+	case "gate":
+		return gateInfo, true
+	case "bgate":
+		return bgateInfo, true
 	}
-	return gateInfo, true
+	return udf.Info{}, false
 }
 func (g *gateSvc) Create(name, taskID, nodeID string, d udf.Diagnostic, abort func()) (udf.Interface, error) {
 	g.mu.Lock()
@@ -73,7 +85,39 @@ func (g *gateSvc) Create(name, taskID, nodeID string, d udf.Diagnostic, abort fu
 	if f {
 		return nil, errors.New("gate: start refused by the oracle")
 	}
-	return &gateUDF{task: taskID, abortCB: abort, in: make(chan edge.Message), out: make(chan edge.Message), done: make(chan struct{}), abrt: make(chan struct{})}, nil
+	g.mu.Lock()
+	delete(g.restored, taskID) // a new start: not restored (yet)
+	g.mu.Unlock()
+	info := gateInfo
+	if name == "bgate" {
+		info = bgateInfo
+	}
+	u := &gateUDF{svc: g, info: info, task: taskID, abortCB: abort, in: make(chan edge.Message), out: make(chan edge.Message), done: make(chan struct{}), abrt: make(chan struct{}), ready: make(chan struct{})}
+	g.mu.Lock()
+	if g.cur == nil {
+		g.cur = map[string]*gateUDF{}
+	}
+	g.cur[taskID] = u
+	g.mu.Unlock()
+	return u, nil
+}
+
+// restoredOf: the snapshot payload the gate of task <id> was last restored with ("" = never).
+// UDFNode.runUDF calls Open, Init, Restore (when there is a snapshot) and then Out, in its own goroutine: the answer
+// is final once Out was called — wait for that (bounded).
+func (g *gateSvc) restoredOf(id string) string {
+	g.mu.Lock()
+	u := g.cur[id]
+	g.mu.Unlock()
+	if u != nil {
+		select {
+		case <-u.ready:
+		case <-time.After(2 * time.Second):
+		}
+	}
+	g.mu.Lock()
+	defer g.mu.Unlock()
+	return g.restored[id]
 }
 func (g *gateSvc) setFail(ids []string) {
 	g.mu.Lock()
@@ -92,6 +136,8 @@ func (g *gateSvc) setFail(ids []string) {
 // an error. The node fails, the task ends with an error: this is the run-time death the goroutine of
 // task_store.startTask waits for.
 type gateUDF struct {
+	svc     *gateSvc
+	info    udf.Info
 	task    string
 	abortCB func()
 	in, out chan edge.Message
@@ -101,6 +147,8 @@ type gateUDF struct {
 	opened  sync.Once
 	mu      sync.Mutex
 	crashed bool
+	ready   chan struct{}
+	rdOnce  sync.Once
 }
 
 const victimTag = "victim"
@@ -131,7 +179,7 @@ func (u *gateUDF) Open() error {
 	})
 	return nil
 }
-func (u *gateUDF) Info() (udf.Info, error)            { return gateInfo, nil }
+func (u *gateUDF) Info() (udf.Info, error)            { return u.info, nil }
 func (u *gateUDF) Init(options []*agent.Option) error { return nil }
 func (u *gateUDF) Abort(err error)                    { u.once.Do(func() { close(u.abrt) }) }
 func (u *gateUDF) Close() error {
@@ -145,10 +193,50 @@ func (u *gateUDF) Close() error {
 	}
 	return nil
 }
-func (u *gateUDF) Snapshot() ([]byte, error)     { return nil, nil }
-func (u *gateUDF) Restore(snapshot []byte) error { return nil }
+func (u *gateUDF) Snapshot() ([]byte, error) { return nil, nil }
+
+// Restore is called by UDFNode.restore when TaskMaster.StartTask found a stored snapshot of the task that has an
+// entry for this node: the payload is remembered so that the listing can show that the snapshot reached the task.
+func (u *gateUDF) Restore(snapshot []byte) error {
+	u.svc.mu.Lock()
+	if u.svc.restored == nil {
+		u.svc.restored = map[string]string{}
+	}
+	u.svc.restored[u.task] = string(snapshot)
+	u.svc.mu.Unlock()
+	return nil
+}
 func (u *gateUDF) In() chan<- edge.Message       { return u.in }
-func (u *gateUDF) Out() <-chan edge.Message      { return u.out }
+func (u *gateUDF) Out() <-chan edge.Message {
+	u.rdOnce.Do(func() { close(u.ready) })
+	return u.out
+}
+
+// ---------------------------------------------------------------------------------------------
+// InfluxDB: batch tasks need tm.InfluxDBService. NewNamedClient is called by QueryNode.doQuery — the goroutine
+// QueryNode.Start launches AFTER StartBatching has returned — so a failing NewNamedClient is a run-time death of the
+// task, not a StartBatching failure; here it always succeeds and the client answers every query with an empty result
+// (the pool's batch scripts query every hour: no query is ever issued during a case).
+
+type nullClient struct{}
+
+func (nullClient) Ping(ctx context.Context) (time.Duration, string, error) { return 0, "", nil }
+func (nullClient) Write(bp influxdb.BatchPoints) error                      { return nil }
+func (nullClient) WriteV2(w influxdb.FluxWrite) error                       { return nil }
+func (nullClient) Query(q influxdb.Query) (*influxdb.Response, error) {
+	return &influxdb.Response{}, nil
+}
+func (nullClient) QueryFlux(q influxdb.FluxQuery) (flux.ResultIterator, error) {
+	return nil, errors.New("no flux")
+}
+func (nullClient) QueryFluxResponse(q influxdb.FluxQuery) (*influxdb.Response, error) {
+	return nil, errors.New("no flux")
+}
+func (nullClient) CreateBucketV2(bucket string, org string, orgID string) error { return nil }
+
+type nullInflux struct{}
+
+func (nullInflux) NewNamedClient(name string) (influxdb.Client, error) { return nullClient{}, nil }
 
 // ---------------------------------------------------------------------------------------------
 // Storage service over one Bolt file, counting committed Update transactions of the task_store namespace and
@@ -283,6 +371,7 @@ func (w *world) boot() error {
 	tm.HTTPDService = w.hs
 	tm.DeadmanService = deadman{}
 	tm.UDFService = w.gate
+	tm.InfluxDBService = nullInflux{}
 	lookup := kapacitor.NewTaskMasterLookup()
 	lookup.Set(tm)
 	if err := tm.Open(); err != nil {
